@@ -379,6 +379,7 @@ fn process_sequences_loop(&mut self)
 // ---------------------------------------------------------------------------------------
 //@ raw
 #[verifier::reject_recursive_types(T)]
+#[verifier::external_body]
 pub struct Action<'a, T> { p: core::marker::PhantomData<&'a T> }
 spec fn fresh<'a, T>(events: Seq<SequenceEvent<'a, T>>) -> SeqV<'a, T> {
     SeqV { cur_event: None, delay: 0, tapped: None, remaining: events }
